@@ -478,7 +478,8 @@ def anchored(ctx, col):
             seen.add(nm)
             for a in assigns:
                 if a.lineno < ret.lineno and any(isinstance(t, ast.Name) and t.id == nm for tt in a.targets for t in ast.walk(tt)):
-                    exprs.append(a.value)
+                    if nm != axis_p:  # `n = np.asarray(n)`: a re-binding of the axis itself, not a use
+                        exprs.append(a.value)
                     frontier |= {n.id for n in ast.walk(a.value) if isinstance(n, ast.Name)}
         occ = []
         for e in exprs:
